@@ -1288,11 +1288,12 @@ def run(run):
         ahead.start("Session_pinned", **PINNED_KW)
         ahead.start("Session_pinnedenv", **PINNED_KW)
         ahead.graph("Session_two")
-        ahead.graph("Session_env1")
-        ahead.graph("Session_env2")
+        ahead.graph("Session_env1", workers=4)          # (small models: a few workers are enough)
+        ahead.graph("Session_env2", workers=4)
         ahead.start("Session_pinnedhost", **PINNED_KW)
-        ahead.start("Session_pinnednest", **PINNED_KW)
-        ahead.graph("Session_fails", workers=4)         # (small models: a few workers are enough)
+        if not quick:
+            ahead.start("Session_pinnednest", **PINNED_KW)
+        ahead.graph("Session_fails", workers=4)
         ahead.graph("Session_dirs", workers=4)
         ahead.graph("Session_nest", workers=4)
         run_checks(run, quick, rng, info, ahead)
@@ -1308,8 +1309,9 @@ def run_checks(run, quick, rng, info, ahead):
     info["pinned_env_counterexample"] = " ; ".join(f"{i}: {op} ({e} environment)" for op, i, e in envs[:4])
     reqs = check_pinned_host(run, ahead)
     info["pinned_host_counterexample"] = "require %s twice" % (reqs[0] if reqs else "?")
-    envs = check_pinned_nest(run, ahead)
-    info["pinned_nest_counterexample"] = " ; ".join(f"{i}: {op} ({e} environment)" for op, i, e in envs[:4])
+    if not quick:
+        envs = check_pinned_nest(run, ahead)
+        info["pinned_nest_counterexample"] = " ; ".join(f"{i}: {op} ({e} environment)" for op, i, e in envs[:4])
 
     def go(cfg, interps, label, *modes):
         """modes: (name, mode, params)"""
@@ -1351,9 +1353,9 @@ def run_checks(run, quick, rng, info, ahead):
     dirs = [("dirs_cover", "cover", {}), ("dirs_histories_le4", "depth", {"maxlen": 4})]
     nest = [("nest_cover", "cover", {}), ("nest_histories_le2", "depth", {"maxlen": 2})]
     if not quick:
-        fails += [("fails_histories_le4", "depth", {"maxlen": 4}),
+        fails += [("fails_histories_le3", "depth", {"maxlen": 3}),
                   ("fails_walks_le30", "walks", {"nwalks": 500, "maxlen": 30})]
-        dirs += [("dirs_histories_le6", "depth", {"maxlen": 6}),
+        dirs += [("dirs_histories_le5", "depth", {"maxlen": 5}),
                  ("dirs_walks_le30", "walks", {"nwalks": 500, "maxlen": 30})]
         nest += [("nest_histories_le3", "depth", {"maxlen": 3}),
                  ("nest_walks_le30", "walks", {"nwalks": 1000, "maxlen": 30})]
